@@ -229,7 +229,8 @@ type Expr struct {
 type CondDef struct {
 	Name   string  `json:"name"`
 	Params []Param `json:"params"`
-	Expr   *Expr   `json:"expr"`
+	Expr   *Expr   `json:"expr,omitempty"`
+	Cel    string  `json:"cel"` // the CEL source text (what the API stores and returns)
 }
 
 type Model struct {
@@ -327,7 +328,70 @@ func (c *CondDef) ToProto() *openfgav1.Condition {
 	for _, x := range c.Params {
 		p[x.N] = paramType(x.Ty)
 	}
-	return &openfgav1.Condition{Name: c.Name, Expression: c.Expr.CEL(), Parameters: p}
+	src := c.Cel
+	if src == "" {
+		src = c.Expr.CEL()
+	}
+	return &openfgav1.Condition{Name: c.Name, Expression: src, Parameters: p}
+}
+
+// ModelFromProto converts an API model back to the abstract form (conditions keep
+// only their CEL text).
+func ModelFromProto(pm *openfgav1.AuthorizationModel) *Model {
+	m := &Model{Types: []string{}, Rels: []RelDef{}, Conds: []CondDef{}}
+	for _, td := range pm.GetTypeDefinitions() {
+		m.Types = append(m.Types, td.GetType())
+		for _, r := range SortedKeys(td.GetRelations()) {
+			def := RelDef{T: td.GetType(), R: r, Rw: RewriteFromProto(td.GetRelations()[r]), Restr: []Restr{}}
+			for _, rr := range td.GetMetadata().GetRelations()[r].GetDirectlyRelatedUserTypes() {
+				def.Restr = append(def.Restr, Restr{T: rr.GetType(), Rel: rr.GetRelation(), WC: rr.GetWildcard() != nil, Cond: rr.GetCondition()})
+			}
+			m.Rels = append(m.Rels, def)
+		}
+	}
+	for _, name := range SortedKeys(pm.GetConditions()) {
+		c := pm.GetConditions()[name]
+		cd := CondDef{Name: c.GetName(), Cel: c.GetExpression(), Params: []Param{}}
+		for _, pn := range SortedKeys(c.GetParameters()) {
+			cd.Params = append(cd.Params, Param{N: pn, Ty: paramTypeName(c.GetParameters()[pn])})
+		}
+		m.Conds = append(m.Conds, cd)
+	}
+	return m
+}
+
+func paramTypeName(p *openfgav1.ConditionParamTypeRef) string {
+	base := strings.ToLower(strings.TrimPrefix(p.GetTypeName().String(), "TYPE_NAME_"))
+	if len(p.GetGenericTypes()) > 0 {
+		return base + "<" + paramTypeName(p.GetGenericTypes()[0]) + ">"
+	}
+	return base
+}
+
+func RewriteFromProto(u *openfgav1.Userset) *Rewrite {
+	switch x := u.GetUserset().(type) {
+	case *openfgav1.Userset_This:
+		return &Rewrite{K: "this"}
+	case *openfgav1.Userset_ComputedUserset:
+		return &Rewrite{K: "computed", Rel: x.ComputedUserset.GetRelation()}
+	case *openfgav1.Userset_TupleToUserset:
+		return &Rewrite{K: "ttu", TS: x.TupleToUserset.GetTupleset().GetRelation(), Rel: x.TupleToUserset.GetComputedUserset().GetRelation()}
+	case *openfgav1.Userset_Union:
+		rw := &Rewrite{K: "union"}
+		for _, c := range x.Union.GetChild() {
+			rw.Ch = append(rw.Ch, RewriteFromProto(c))
+		}
+		return rw
+	case *openfgav1.Userset_Intersection:
+		rw := &Rewrite{K: "inter"}
+		for _, c := range x.Intersection.GetChild() {
+			rw.Ch = append(rw.Ch, RewriteFromProto(c))
+		}
+		return rw
+	case *openfgav1.Userset_Difference:
+		return &Rewrite{K: "diff", Base: RewriteFromProto(x.Difference.GetBase()), Sub: RewriteFromProto(x.Difference.GetSubtract())}
+	}
+	return &Rewrite{K: "unknown"}
 }
 
 func (rw *Rewrite) ToProto() *openfgav1.Userset {
